@@ -80,11 +80,11 @@ def run(ctx):
             run_one(ops, c, r)
     stats['exhaustive_configs'] = len(configs)
     # ---- seeded structured sample (incl. tie-heavy plans that force multi-round jump-offs)
-    n = 2500 if ctx.quick() else 60000
+    n = 12000 if ctx.quick() else 120000
     for i in range(n):
-        if i % 3 == 0:
+        if i % 3 != 2:
             ops, c, r = H.gen_competition(rng, athlib, nath=rng.randint(2, 4), nheights=rng.randint(1, 3), jo_heights=3 if ctx.quick() else 5,
-                                          att_choice=lambda g: g.choice(['o', 'o', 'o', 'xo', 'xxx', 'xxx']))
+                                          att_choice=lambda g: g.choice(['o', 'o', 'o', 'xo', 'xo', 'xxx', 'xxx']))
         else:
             ops, c, r = H.gen_competition(rng, athlib)
         run_one(ops, c, r)
